@@ -6,6 +6,7 @@ root = os.path.dirname(os.path.dirname(os.path.abspath(__file__)))
 shapes = [
     ("scalars", 3, True, False), ("ints", 5, False, False), ("fixed", 1, False, False), ("bytes", 0, True, True),
     ("nested", 4, True, False), ("repeated", 3, True, True), ("repscalar", 2, False, True), ("maps", 3, True, True), ("node", 3, True, False),
+    ("mapptr", 3, True, True),
 ]
 def wides(n, tier):
     if n == 0: return [0]
@@ -39,7 +40,7 @@ def units(prefix, harness, desc, covers, reps_q=[0, 1, 2], reps_t=[0, 1, 2, 3, 1
             us.append(u2)
     return us
 common_assume = [
-    "type shapes are the 9 catalogue structs of harness/proto/types.go (scalars, ints, fixed/float, bytes/array, nested+pointers, repeated, repeated scalars, maps, recursive node); values are symbolic inside a shape",
+    "type shapes are the 10 catalogue structs of harness/proto/types.go (scalars, ints, fixed/float, bytes/array, nested+pointers, repeated, repeated scalars, maps, recursive node, maps of []byte / pointer-to-scalar / pointer-to-message + pointer-held message); values are symbolic inside a shape",
     "integer fields take full-width symbolic values one field at a time (vfWide), the others range over 0..255 or -128..127, to bound the product of varint size classes",
     "runtime map/slice primitives bound by //go:linkname are modelled by the real signature of the link target (engine builtin.go linkTarget); sync.Pool/atomic.Value are sequential stubs",
     "strings/bytes lengths and element counts are bounded as listed per unit",
@@ -58,6 +59,23 @@ c07 = {"property": "C07", "title": "proto decoding is total and ignores unknown 
 c07["units"].append({"name": "H07-varint", "desc": "decodeVarint on free bytes == LEB128 reference with the 10-byte rule", "pkg": "./proto", "overlay": ["harness/proto"], "harness": "vfH_c07_varint", "grid": {"vfLen": {"quick": "0..11", "thorough": "0..12"}}, "covers": ["ok", "err"]})
 c07["units"].append({"name": "H07-parse", "desc": "Parse/Scan/RawValue on free bytes: no panic, slices inside the input, progress", "pkg": "./proto", "overlay": ["harness/proto"], "harness": "vfH_c07_parse", "grid": {"vfLen": {"quick": "0..6", "thorough": "0..8"}}, "split": {"all": 5}, "covers": ["ok", "err", "scan-ok"]})
 c07["units"] += units("H07-prefix", "vfH_c07_prefix", "every proper prefix of a valid encoding decodes without panic, allocation bounded", ["done"], reps_q=[0, 1, 2], reps_t=[0, 1, 2, 3])
+def simple_units(prefix, harness, desc, covers, grid_extra, **kw):
+    us = []
+    for i, (name, nw, ulen, ulen2) in enumerate(shapes):
+        g = {"vfShape": {"all": [i]}, "vfWide": {"all": [0]}, "vfLen2": {"all": [1] if ulen2 else [0]}}
+        g.update(grid_extra)
+        u = {"name": "%s-%s" % (prefix, name), "desc": desc + " (shape %s)" % name, "pkg": "./proto", "overlay": ["harness/proto"], "harness": harness, "grid": g, "covers": covers,
+             "timeout_ms": 30000, "concret": ["github.com/segmentio/encoding/proto.sizeOfVarint"], "split": {"all": 6}}
+        u.update(kw)
+        us.append(u)
+    return us
+c07["units"].append({"name": "H07-parselen", "desc": "Parse/Scan on [tag][varint of exactly k bytes unless it overflows][0..2 more bytes]: lengths up to 2^64-1 (n+l overflow), result == reference scanner", "pkg": "./proto", "overlay": ["harness/proto"], "harness": "vfH_c07_parselen",
+                     "grid": {"vfLen2": {"all": "1..10"}, "vfLen": {"quick": [0, 2], "thorough": [0, 1, 2, 3]}}, "covers": ["ok", "err"]})
+c07["units"] += simple_units("H07-free", "vfH_c07_free", "every byte string of the length into the shape's target: no panic, allocation bounded, accepted input is well-formed", ["rejected"],
+                             {"vfLen": {"quick": "0..3", "thorough": "0..4"}, "vfLen2": {"all": [0]}})
+c07["units"] += simple_units("H07-unknown", "vfH_c07_unknown", "an undeclared well-formed field (number base+65536*k, k symbolic up to 2^29; varint/fixed64/varlen/fixed32) inserted at every top-level boundary of a valid encoding: decoded value unchanged, Scan enumerates exactly the fields", ["done"],
+                             {"vfLen": {"quick": [1], "thorough": [0, 1]}, "vfMode": {"quick": [0, 2], "thorough": [0, 1, 2, 5]}, "vfDeep": {"quick": [0], "thorough": [0, 1]}})
+c07["outside_claim"] = ["free byte strings longer than the bounds", "types outside the catalogue", "unknown fields inserted inside embedded messages and map entries (top-level boundaries only)", "group wire types 3/4 (rejected by the decoder)"]
 for fn, spec in (("C03", c03), ("C16", c16), ("C07", c07)):
     json.dump(spec, open(os.path.join(root, "spec", fn + ".json"), "w"), indent=1)
 print("ok")
